@@ -332,9 +332,38 @@ def check(model, rep):
         from ..engine import peval as _pe
         flat = _pe.flatten_function(tv.toplevel_funcs(fi.module.tree), fi.node)
         fr = [n_ for n_ in ast.walk(flat) if isinstance(n_, ast.Return) and n_.value is not None]
-        got = Inliner(fi, node=flat).text(fr[0].value) if len(fr) == 1 else '?'
-        ok = got == 'tm(mr.%s(%s.gTAA(),%s.gTAA()))' % (kern, fi.params[0], fi.params[1])
-        rep.ob('R04.2', fi, 'tm(mr.%s(reference.gTAA(), rel.gTAA()))' % kern, ok, 'wrapper is %s' % got)
+        want_w = 'tm(mr.%s(%s.gTAA(),%s.gTAA()))' % (kern, fi.params[0], fi.params[1])
+        if len(fr) == 1:
+            got = Inliner(fi, node=flat).text(fr[0].value)
+            rep.ob('R04.2', fi, 'tm(mr.%s(reference.gTAA(), rel.gTAA()))' % kern, got == want_w, 'wrapper is %s' % got)
+        else:
+            # several returns: every returning path is the wrapper, or a shortcut that hands back (a copy of) one operand on a path that
+            # establishes that the OTHER operand is the identity - through its whole six-vector (Norm6 / all elements), not a part of it
+            p0, p1 = fi.params[0], fi.params[1]
+            keep, other = (p0, p1) if name == 'localToGlobal' else (p1, p0)
+            ident = lambda X: {'mr.Norm6(%s[0:6])==0' % X, 'mr.Norm6(%s.gTAA())==0' % X, 'mr.Norm6(%s.TAA)==0' % X, 'np.all(%s.TAA==0)' % X,
+                               'np.all(%s.gTAA()==0)' % X, '%s==tm()' % X, 'notnp.any(%s.TAA)' % X, 'notnp.any(%s.gTAA())' % X,
+                               'np.linalg.norm(%s.TAA)==0' % X, 'np.linalg.norm(%s.gTAA())==0' % X, 'np.linalg.norm(%s[0:6])==0' % X}
+            n_ret = 0
+            for pth in paths_of(flat, fi.params):
+                if pth.kind != 'return' or pth.ret is None:
+                    continue
+                n_ret += 1
+                r_ = pth.ret.replace(' ', '')
+                if r_ == want_w:
+                    continue
+                if r_ in ('%s.copy()' % keep, 'tm(%s)' % keep, 'tm(%s.copy())' % keep, 'tm(%s.gTM())' % keep, 'tm(%s.TM)' % keep):
+                    true_facts = {k_.replace(' ', '') for k_, v_ in pth.facts.items() if v_ is True} | \
+                                 {'not' + k_.replace(' ', '') for k_, v_ in pth.facts.items() if v_ is False}
+                    ok_ = bool(true_facts & ident(other))
+                    why_ = ', '.join(sorted('%s is %s' % (pth.fact_src.get(k_, k_)[:60], v_) for k_, v_ in pth.facts.items())) or 'unconditionally'
+                    rep.ob('R04.2', fi, '%s: shortcut returning %s' % (name, r_), ok_,
+                           '%s hands back %s when %s: that does not establish that `%s` is the identity (all six components of its translation / axis-angle vector '
+                           'zero), so for the other poses admitted by the test - e.g. a pure rotation when only components 0..2 are measured - the composition is dropped'
+                           % (name, r_, why_, other), line=pth.ret_line)
+                else:
+                    rep.ob('R04.2', fi, 'tm(mr.%s(reference.gTAA(), rel.gTAA()))' % kern, False, 'a path of %s returns %s' % (name, r_[:80]), shape=True, line=pth.ret_line)
+            rep.ob('R04.2', fi, '%s: returning paths found' % name, n_ret >= 1, 'no returning path', shape=True)
 
     # ---------------------------------------------------------------- R04.3
     rep.rule('R04.3', 'getQuat/setQuat: same scipy convention (default scalar-last), same 3x3 block, setQuat syncs')
